@@ -98,7 +98,9 @@ func TestVerifPlanReplay(t *testing.T) {
 	var mu sync.Mutex
 	got := make([]int, total+1)
 	recvDone := make(chan error, 1)
-	go func() { recvDone <- vScriptedReceiver(ctx, receiverConn, item, total, bitmap, V, claimed, fileIDEmpty, totalFieldZero, &mu, got) }()
+	go func() {
+		recvDone <- vScriptedReceiver(ctx, receiverConn, item, total, bitmap, V, claimed, fileIDEmpty, totalFieldZero, &mu, got)
+	}()
 
 	sendErr := SendManifestMultiStream(ctx, senderConn, srcDir, m, Options{ChunkSize: cs, ParallelFiles: 1, Resume: true, ResumeVerify: mode, HashAlg: alg, ResumeVerifyTail: tail})
 	if sendErr != nil {
